@@ -378,7 +378,7 @@ func gcQuiesce(rt *hookrt.Runtime, d time.Duration) {
 		time.Sleep(d / 3)
 		time.Sleep(d / 3)
 		n := rt.Len()
-		if n == last {
+		if n == last && rt.ParkedNow() == 0 { // a goroutine held by a park rule will move again: not quiescent
 			return
 		}
 		last = n
